@@ -644,6 +644,9 @@ def run(repo, rep, tier):
     rep.rule("R-C09-10", "split(): with frequency AND direction limits given the result is computed from all four limits (each step continues from the result "
                          "of the previous one)")
     result_depends_on(repo, rep, "R-C09-10", "wavespectra.specarray.SpecArray.split", ("fmin", "fmax", "dmin", "dmax"), "band split")
+    rep.rule("R-C09-11", "the band-limit validation tests limits with `is not None`, never by truthiness (dmin = 0 must not switch the check off)")
+    from .round7b import truthiness_guards
+    truthiness_guards(repo, rep, "R-C09-11", ("wavespectra.specarray", "wavespectra.partition."))
     rep.rule("R-C09-8", "(shared with C01) the celerity the wave-age rule compares with the wind is the linear-dispersion celerity at the given depth for EVERY depth "
                         "(deep-water closed form only without a depth): a shortcut inside the finite-depth branch moves bins across the wind-sea / swell boundary")
     from .c01 import closed_forms as _cf
